@@ -326,9 +326,34 @@ func (c *Ctx) concurrentDerivers(k int) {
 			c5 := l.Map(func(i int, v any) any { return v }).Add(6000 + g)
 			runtime.Gosched()
 			c1.Add(7000 + g)
-			got := fmt.Sprint(c1.Slice(), c2.Slice(), c3.Slice(), c4.Slice(), c5.Slice())
+			// results changed in place (no growth): a result that is a window onto the shared list writes into it
+			n := len(base)
+			c6 := l.SubList(0, n)
+			c7 := l.Concat(at.NewList())
+			c8 := l.SubList(n/2, n)
+			e6 := append([]any{}, base...)
+			e7 := append([]any{}, base...)
+			e8 := append([]any{}, base[n/2:]...)
+			if n > 0 {
+				c6.Replace(0, 8000+g)
+				e6[0] = 8000 + g
+				c7.Replace(n-1, 9000+g)
+				e7[n-1] = 9000 + g
+				c7.Delete(0)
+				e7 = e7[1:]
+			}
+			c6.Reverse()
+			for i, j := 0, len(e6)-1; i < j; i, j = i+1, j-1 {
+				e6[i], e6[j] = e6[j], e6[i]
+			}
+			if len(e8) > 0 {
+				c8.Replace(0, 9500+g)
+				e8[0] = 9500 + g
+			}
+			runtime.Gosched()
+			got := fmt.Sprint(c1.Slice(), c2.Slice(), c3.Slice(), c4.Slice(), c5.Slice(), c6.Slice(), c7.Slice(), c8.Slice())
 			w := func(x int) []any { return append(append([]any{}, base...), x) }
-			exp := fmt.Sprint(append(append([]any{}, want...), 7000+g), w(3000+g), w(4000+g), w(5000+g), w(6000+g))
+			exp := fmt.Sprint(append(append([]any{}, want...), 7000+g), w(3000+g), w(4000+g), w(5000+g), w(6000+g), e6, e7, e8)
 			return got, exp
 		}
 		var wg sync.WaitGroup
